@@ -39,33 +39,33 @@ Proof.
 Qed.
 
 (* ---------- the verifiers never panic ---------- *)
-Lemma scan_signers_nopanic c names : forall used w k, scan_signers c names used w <> RPanic k.
+Lemma scan_signers_nopanic okst c names : forall used w k, scan_signers okst c names used w <> RPanic k.
 Proof.
   induction names as [|a l IH]; simpl; intros used w k; [discriminate|].
-  destruct (memN a used); [discriminate|]. destruct (_ =? 0); [discriminate|]. apply IH.
+  destruct (memN a used); [discriminate|]. destruct (negb _); [discriminate|]. apply IH.
 Qed.
 Lemma qc_verify_nopanic c q k : qc_verify c q <> RPanic k.
 Proof.
-  unfold qc_verify. destruct (scan_signers c _ _ _) eqn:E; try discriminate.
-  - destruct (_ <? _); [discriminate|]. destruct (forallb _ _); discriminate.
+  unfold qc_verify. destruct (scan_signers _ c _ _ _) eqn:E; try discriminate.
+  - destruct (negb _); [discriminate|]. destruct (forallb _ _); discriminate.
   - exfalso. eapply scan_signers_nopanic; eauto.
 Qed.
 Lemma tc_verify_nopanic c t k : tc_verify c t <> RPanic k.
 Proof.
-  unfold tc_verify. destruct (scan_signers c _ _ _) eqn:E; try discriminate.
-  - destruct (_ <? _); [discriminate|]. destruct (forallb _ _); discriminate.
+  unfold tc_verify. destruct (scan_signers _ c _ _ _) eqn:E; try discriminate.
+  - destruct (negb _); [discriminate|]. destruct (forallb _ _); discriminate.
   - exfalso. eapply scan_signers_nopanic; eauto.
 Qed.
 Lemma vote_verify_nopanic c v k : vote_verify c v <> RPanic k.
-Proof. unfold vote_verify. destruct (_ =? 0); [discriminate|]. destruct (sig_ok _ _ _); discriminate. Qed.
+Proof. unfold vote_verify. destruct (negb _); [discriminate|]. destruct (sig_ok _ _ _); discriminate. Qed.
 Lemma timeout_verify_nopanic c t k : timeout_verify c t <> RPanic k.
 Proof.
-  unfold timeout_verify. destruct (_ =? 0); [discriminate|]. destruct (negb _); [discriminate|].
+  unfold timeout_verify. destruct (negb (g_timeout_stake _)); [discriminate|]. destruct (negb _); [discriminate|].
   destruct (qc_eqb _ _); [discriminate|]. apply qc_verify_nopanic.
 Qed.
 Lemma block_verify_nopanic c b k : block_verify c b <> RPanic k.
 Proof.
-  unfold block_verify. destruct (_ =? 0); [discriminate|]. destruct (negb _); [discriminate|].
+  unfold block_verify. destruct (negb (g_block_stake _)); [discriminate|]. destruct (negb _); [discriminate|].
   destruct (qc_eqb _ _).
   - destruct (b_tc b); [apply tc_verify_nopanic|discriminate].
   - destruct (qc_verify c (b_qc b)) eqn:E; try discriminate.
@@ -118,21 +118,24 @@ Section Link.
   Lemma quorum_pos : 0 < Node.quorum c.
   Proof. unfold Node.quorum. gunf. lia. Qed.
 
-  Lemma scan_signers_ok names : forall used w w',
-    scan_signers c names used w = ROk w' ->
+  (* [okst] is the regenerated voting-rights test; all the proof needs is that it rejects zero stake *)
+  Lemma scan_signers_ok okst names : (forall s, okst s = true -> s <> 0) -> forall used w w',
+    scan_signers okst c names used w = ROk w' ->
     NoDup names /\ (forall a, In a names -> ~ In a used /\ stk a <> 0) /\ w' = w + wsum stk names.
   Proof.
+    intros Hok.
     induction names as [|a rest IH]; simpl; intros used w w' H.
     - inversion H; subst. split; [constructor|]. split; [intros ? []|]. lia.
     - destruct (memN a used) eqn:Em; [discriminate|].
-      destruct (Node.stake c a =? 0) eqn:Es; [discriminate|].
+      destruct (okst (Node.stake c a)) eqn:Es0; [|discriminate]. simpl in H.
+      assert (Es : (Node.stake c a =? 0) = false) by (apply N.eqb_neq; apply Hok; exact Es0).
       apply IH in H. destruct H as [Hnd [Hall Hw]].
       assert (Hau : ~ In a used).
       { intro Hin. apply memN_in in Hin. congruence. }
       split; [|split].
       + constructor; auto. intro Hin. destruct (Hall a Hin) as [Hn _]. apply Hn. left. reflexivity.
       + intros x [<-|Hx].
-        * split; auto. unfold stk. apply N.eqb_neq in Es. exact Es.
+        * split; [exact Hau|unfold stk; apply N.eqb_neq; exact Es].
         * destruct (Hall x Hx) as [Hn Hs]. split; auto. intro Hin. apply Hn. right. exact Hin.
       + unfold stk in *. lia.
   Qed.
@@ -153,13 +156,13 @@ Section Link.
     certified stk members honest w (qc_hash q) (qc_round q).
   Proof.
     unfold qc_verify. intros H Hadm.
-    destruct (scan_signers c (map fst (qc_votes q)) [] 0) as [wt|e|k] eqn:Es; try discriminate.
-    destruct (wt <? Node.quorum c) eqn:Eq; [discriminate|].
+    destruct (scan_signers _ c (map fst (qc_votes q)) [] 0) as [wt|e|k] eqn:Es; try discriminate.
+    destruct (g_qc_weight wt (Node.quorum c)) eqn:Eq; [|discriminate]. simpl in H.
     destruct (forallb _ (qc_votes q)) eqn:Ef; [|discriminate].
-    apply scan_signers_ok in Es. destruct Es as [Hnd [Hall Hw]].
+    apply scan_signers_ok in Es; [|gunf; intros s0 Hs0; lia]. destruct Es as [Hnd [Hall Hw]].
     exists (map fst (qc_votes q)). split; [exact Hnd|]. split; [|split].
     - intros a Ha. apply stake_pos_member. apply (Hall a Ha).
-    - rewrite <- quorum_agree. apply N.ltb_ge in Eq. lia.
+    - rewrite <- quorum_agree. gunf. apply N.leb_le in Eq. lia.
     - intros s Hs Hh. apply in_map_iff in Hs. destruct Hs as [[s' sg] [Hfst Hin]]. simpl in Hfst. subst s'.
       rewrite forallb_forall in Ef. specialize (Ef _ Hin). simpl in Ef.
       apply sig_ok_inv in Ef. destruct Ef as [ct' [-> Hct]].
@@ -177,11 +180,11 @@ Section Link.
     validtc stk members honest w (tc_round tc) (tc_entries tc) /\ tc_votes tc <> [].
   Proof.
     unfold tc_verify. intros H Hadm.
-    destruct (scan_signers c (map (fun x => fst (fst x)) (tc_votes tc)) [] 0) as [wt|e|k] eqn:Es; try discriminate.
-    destruct (wt <? Node.quorum c) eqn:Eq; [discriminate|].
+    destruct (scan_signers _ c (map (fun x => fst (fst x)) (tc_votes tc)) [] 0) as [wt|e|k] eqn:Es; try discriminate.
+    destruct (g_tc_weight wt (Node.quorum c)) eqn:Eq; [|discriminate]. simpl in H.
     destruct (forallb _ (tc_votes tc)) eqn:Ef; [|discriminate].
-    apply scan_signers_ok in Es. destruct Es as [Hnd [Hall Hw]].
-    apply N.ltb_ge in Eq.
+    apply scan_signers_ok in Es; [|gunf; intros s0 Hs0; lia]. destruct Es as [Hnd [Hall Hw]].
+    gunf. apply N.leb_le in Eq.
     split.
     - unfold validtc. rewrite map_fst_entries. split; [exact Hnd|]. split; [|split].
       + intros a Ha. apply stake_pos_member. apply (Hall a Ha).
